@@ -120,7 +120,9 @@ def _direct(scn, res):
                 key, content = accepted[rng.randrange(len(accepted))]
             else:
                 fid += 1
-                content = (rng.choice([0o1, 0o2, 0o13]), 0, fid & 0xFFFF, rng.choice([0, 1, 65, 127]), rng.randrange(4), bytes(rng.getrandbits(8) for _ in range(rng.randint(0, 24))))
+                # ids from the whole 16-bit range, with pairs that agree in their low 12 / low 8 bits
+                wide = (fid % 5 + rng.choice([0, 0x1000, 0x2000, 0xF000, 0x0100, 0xFF00])) & 0xFFFF
+                content = (rng.choice([0o1, 0o2, 0o13]), 0, wide if rng.random() < 0.7 else fid & 0xFFFF, rng.choice([0, 1, 65, 127]), rng.randrange(4), bytes(rng.getrandbits(8) for _ in range(rng.randint(0, 24))))
                 key = (content[0], content[2], content[3])
             h = RF24NetworkHeader(content[1], content[3])
             h.from_node, h.frame_id, h.reserved = content[0], content[2], content[4]
